@@ -268,6 +268,9 @@ pub fn drive(trace: &Trace, stats: &mut Stats, h: &mut dyn StepHandler) -> Vec<F
                     let g = model.reg(op.reg);
                     let t = op.target(g.cond);
                     g.set_condition(t);
+                    if op.op == HwKind::Enable {
+                        g.enable = op.value;
+                    }
                 }
                 world.exec_hw(op);
                 stats.fault("F9_condition_change");
